@@ -121,6 +121,8 @@ def generate(rng, tier, prop):
             fam = rng.choice(docgen.BIG_FAMILIES)
             if tier == "quick":
                 scale = rng.choice([50, 300, 1200, 3000])
+                if fam == "long_runs" and rng.random() < 0.3:
+                    scale = rng.choice([30_000, 100_000])     # a quadratic scan inside the regex engine only shows at this size
             else:
                 scale = rng.choice([300, 1200, 3000, 10_000, 30_000, 100_000])
             if fam in ("deep_nesting", "deep_unclosed", "deep_nesting_blocks", "deep_quote_nesting"):
@@ -180,12 +182,23 @@ def generate(rng, tier, prop):
                 cfg["docs"][0] = src
             if which == "d1=d2":
                 cfg["docs"][1] = _slim(_doc(rng, tier, enc, nblocks=0))
-        ops.append({"op": "splice", "d1": 0, "mid": 1, "d2": 2, "other": 3, "faults": fl,
+        raw_rep = 1
+        if rng.random() < 0.08:
+            raw_rep = rng.choice([3, 60, 200])      # long runs of broken blocks with nothing good in between
+        if rng.random() < 0.1:
+            # the middle document is a copy of the suffix, cut off somewhere (crash while appending a second copy)
+            cfg["docs"][1] = _slim(d2)
+            fl = [dict(faults.draw(rng, ["torn_write"]), fill=rng.choice(["cut", "cut", "zero_sector"]))]
+        ops.append({"op": "splice", "d1": 0, "mid": 1, "d2": 2, "other": 3, "faults": fl, "raw_rep": raw_rep,
                     "glue": rng.choice(["\n", "\n", "\n\n", "", " \n"]),
-                    "raw_x": rng.choice([None, None, None, 0, 1, 2, 3, 4, 5, 6, 7]) if fl or rng.random() < 0.5 else None,
+                    "raw_x": (rng.choice([None, None, None, 0, 1, 2, 3, 4, 5, 6, 7]) if fl or rng.random() < 0.5 else None) if raw_rep == 1 else rng.randrange(8),
                     "no_d2": rng.random() < 0.25})
     elif prop == "C05":
-        cfg["docs"].append(_slim(_doc(rng, tier, enc)))
+        if rng.random() < (0.004 if tier == "quick" else 0.03):
+            # size swarm: libraries of several hundred to a few thousand blocks (thresholds, batching, parallel paths)
+            cfg["docs"].append(_slim(_doc(rng, tier, enc, nblocks=rng.choice([520, 700, 1500]), maxfields=2, multiline=0.0, nest=1)))
+        else:
+            cfg["docs"].append(_slim(_doc(rng, tier, enc)))
         writer = rng.choice(["foreign", "foreign", "library"])
         ops.append({"op": "seed", "path": "a.bib", "doc": 0, "writer": writer, "fmt": rng.randrange(3)})
         if rng.random() < 0.25:
@@ -788,6 +801,20 @@ def _load_into(res, op, step, disk, enc, mem, prop, V, guarded):
     res.event(step, "load_into:" + op["stack"], "ok:" + hexdigest_of(repr([content(b) for b in out.blocks[:60]]), 8), "")
 
 
+def _doc_key(b, text):
+    """(class name, key) of a docgen block, read from the document text."""
+    s_, e_ = b["span"]
+    seg = text[s_:e_]
+    if b["kind"] == "entry":
+        inner = seg[seg.index("{") + 1:]
+        end = min([i for i in (inner.find(","), inner.find("}")) if i >= 0] or [len(inner)])
+        return ("Entry", inner[:end].strip())
+    if b["kind"] == "string":
+        inner = seg[seg.index("{") + 1:]
+        return ("String", inner[:inner.index("=")].strip())
+    return (b["kind"], None)
+
+
 def _parse_blocks(text):
     return SP.Splitter(text).split().blocks
 
@@ -816,8 +843,9 @@ def _splice(res, op, cfg, docs, step, V, guarded):
         res.precondition_miss += 1
         return
     D2 = d2["text"][b2[0]["span"][0]:] if b2 else ""
+    legit_keys = None
     if op.get("raw_x") is not None:
-        X = RAW_X[op["raw_x"] % len(RAW_X)]
+        X = RAW_X[op["raw_x"] % len(RAW_X)] * op.get("raw_rep", 1)
         res.faults["raw_garbage"] += 1
         res.faults_eff["raw_garbage"] += 1
     else:
@@ -825,10 +853,17 @@ def _splice(res, op, cfg, docs, step, V, guarded):
         other = oth["text"].encode(enc, "replace")
         prev = other
         for f in op["faults"]:
-            new, _ = faults.apply(data, f, cfg["sector"], prev=prev, other=other)
+            new, dmg = faults.apply(data, f, cfg["sector"], prev=prev, other=other)
             res.faults[f["kind"]] += 1
             if new != data:
                 res.faults_eff[f["kind"]] += 1
+            if len(op["faults"]) == 1 and f["kind"] == "torn_write" and f.get("fill") in ("cut", "zero_sector") and new != data:
+                # everything from the cut on is gone: a block of M that contains the cut has lost its closing brace and
+                # cannot be a complete block, so only the blocks wholly before the cut may register their keys
+                cut = len(data[:dmg[0]].decode(enc, "replace"))
+                legit_keys = {_doc_key(b, mid["text"]) for b in mid["blocks"] if b["span"][1] <= cut} | \
+                             {_doc_key(b, d1["text"]) for b in d1["blocks"]}
+                res.probes["middle_is_cut_off_inside_a_block"] += any(b["span"][0] < cut < b["span"][1] for b in mid["blocks"])
             data = new
         X = data.decode(enc, "replace")
         if not op["faults"]:
@@ -878,6 +913,14 @@ def _splice(res, op, cfg, docs, step, V, guarded):
                   f"block {i} of the well-formed prefix changed when text was appended: alone {_cmp(b)!r}@{b.start_line}, with suffix {_cmp(g)!r}@{g.start_line}")
                 return
         tail = got[len(got) - len(p2):]
+        if legit_keys is not None:
+            for i, (g, b) in enumerate(zip(tail, p2)):
+                if isinstance(g, M.DuplicateBlockKeyBlock) and not isinstance(b, M.DuplicateBlockKeyBlock) \
+                        and (type(unwrap_dup(b)).__name__, g.key) not in legit_keys:
+                    V("C04", "suffix", f"{how}/flagged-duplicate-of-a-cut-off-block", step,
+                      f"block {i} of the well-formed suffix ({type(unwrap_dup(b)).__name__} {g.key!r}) is flagged as a duplicate, but the only earlier "
+                      f"text with that key is a block that was cut off before its closing brace (a failed block registers no key)")
+                    return
         line_off = text[:x_end].count("\n")
         for i, (g, b) in enumerate(zip(tail, p2)):
             if _cmp(g) == _cmp(b):
